@@ -1155,6 +1155,15 @@ pub fn run(em: &mut Em, rng: &mut Rng) {
                 }
                 op_iter_fold(em, ci);
             }
+            if guard(n, k) && (n + 2 * k) % 11 == 0 {
+                // shared strided targets: ndarray copies them compactly when `view_mut()` makes them
+                // unique, so `iter_fold` gets its slice and returns (on a fixed share of the pairs)
+                let mut ca = Cfg::random(rng, n, k, false);
+                ca.own = 2;
+                ca.lr = *rng.pick(&['C', 'O']);
+                ca.lt = 'S';
+                op_iter_fold(em, ca);
+            }
             if k >= 1 && k <= n + 1 && n <= 24 {
                 if k <= n || rng.chance(1, 4) {
                     gen_cv(em, rng, n, k, CvGen::default());
